@@ -238,7 +238,7 @@ def cases():
 
 
 def run(ctx):
-    n = ctx.share(6000 if ctx.quick else 200000)
+    n = ctx.share(32000 if ctx.quick else 320000)
     explore(ctx, cases(), body, n)
 
 
